@@ -25,7 +25,12 @@ func callName(c *ast.CallExpr) string {
 }
 
 // returnsError: the block returns a non-nil error expression (anything but the identifier nil).
-func returnsError(b *ast.BlockStmt) bool {
+// returnsError: the block returns a non-nil error. When v names the error that was just tested and others the error
+// variables of earlier calls, a return that is built from one of the others and not from v does not count: at that
+// point the other variable is nil (its call succeeded), and wrapping nil gives nil.
+func returnsError(b *ast.BlockStmt) bool { return returnsErrorOf(b, "", nil) }
+
+func returnsErrorOf(b *ast.BlockStmt, v string, others map[string]bool) bool {
 	if b == nil {
 		return false
 	}
@@ -33,6 +38,20 @@ func returnsError(b *ast.BlockStmt) bool {
 		if rs, ok := st.(*ast.ReturnStmt); ok && len(rs.Results) >= 1 {
 			last := rs.Results[len(rs.Results)-1]
 			if id, ok := last.(*ast.Ident); ok && id.Name == "nil" {
+				return false
+			}
+			usesV, usesOther := false, false
+			ast.Inspect(last, func(n ast.Node) bool {
+				if id, ok := n.(*ast.Ident); ok {
+					if v != "" && id.Name == v {
+						usesV = true
+					} else if others[id.Name] {
+						usesOther = true
+					}
+				}
+				return true
+			})
+			if usesOther && !usesV {
 				return false
 			}
 			return true
@@ -92,6 +111,8 @@ type saveWalk struct {
 	out         []effect
 	truncates   bool
 	visiting    map[string]bool
+	errVars     map[string]bool
+	otherPaths  []string // files created or opened for writing under a name that is not the target handed to Save
 }
 
 func (w *saveWalk) roleName(c *ast.CallExpr, roles map[string]string) string {
@@ -170,6 +191,13 @@ func (w *saveWalk) call(c *ast.CallExpr, checked bool, how string, roles map[str
 	if name == "os.Create" {
 		w.truncates = true
 	}
+	if (name == "os.Create" || name == "os.OpenFile") && len(c.Args) >= 1 {
+		// the file that is written is the target itself (a variable that holds the parameter of Save)
+		id, isID := c.Args[0].(*ast.Ident)
+		if !isID || roles[id.Name] != "target" {
+			w.otherPaths = append(w.otherPaths, w.p.pos(c))
+		}
+	}
 	if w.interesting(name) {
 		w.out = append(w.out, effect{name, checked && outerChecked, how, w.p.pos(c)})
 		return
@@ -201,13 +229,35 @@ func (w *saveWalk) call(c *ast.CallExpr, checked bool, how string, roles map[str
 	}
 }
 
+// error variables of the calls met so far in the function being walked
+func (w *saveWalk) noteErrVar(v string) {
+	if v == "" {
+		return
+	}
+	if w.errVars == nil {
+		w.errVars = map[string]bool{}
+	}
+	w.errVars[v] = true
+}
+
+func (w *saveWalk) otherErrVars(v string) map[string]bool {
+	out := map[string]bool{}
+	for k := range w.errVars {
+		if k != v {
+			out[k] = true
+		}
+	}
+	return out
+}
+
 func (w *saveWalk) walk(list []ast.Stmt, roles map[string]string, outerChecked bool) {
 	for i, st := range list {
 		switch s := st.(type) {
 		case *ast.IfStmt:
 			if as, ok := s.Init.(*ast.AssignStmt); ok && len(as.Rhs) == 1 {
 				if c, ok := as.Rhs[0].(*ast.CallExpr); ok {
-					w.call(c, isErrNotNil(s.Cond, errVarOf(as.Lhs)) && returnsError(s.Body), "if err := ...; err != nil { return err }", roles, outerChecked)
+					w.call(c, isErrNotNil(s.Cond, errVarOf(as.Lhs)) && returnsErrorOf(s.Body, errVarOf(as.Lhs), w.otherErrVars(errVarOf(as.Lhs))), "if err := ...; err != nil { return err }", roles, outerChecked)
+					w.noteErrVar(errVarOf(as.Lhs))
 					w.noteRoles(as.Lhs, c, roles)
 				}
 			}
@@ -222,10 +272,11 @@ func (w *saveWalk) walk(list []ast.Stmt, roles map[string]string, outerChecked b
 					// x, err := f(); if err != nil { return ... } as the next statement
 					ev := errVarOf(s.Lhs)
 					if ev != "" && i+1 < len(list) {
-						if nx, ok := list[i+1].(*ast.IfStmt); ok && nx.Init == nil && isErrNotNil(nx.Cond, ev) && returnsError(nx.Body) {
+						if nx, ok := list[i+1].(*ast.IfStmt); ok && nx.Init == nil && isErrNotNil(nx.Cond, ev) && returnsErrorOf(nx.Body, ev, w.otherErrVars(ev)) {
 							checked = true
 						}
 					}
+					w.noteErrVar(ev)
 					w.call(c, checked, "assigned, then checked by the next statement", roles, outerChecked)
 					w.noteRoles(s.Lhs, c, roles)
 				}
@@ -270,10 +321,14 @@ func (w *saveWalk) walk(list []ast.Stmt, roles map[string]string, outerChecked b
 	}
 }
 
-func saveEffects(p *pkgSrc, fd *ast.FuncDecl, interesting func(string) bool) ([]effect, bool) {
+func saveEffects(p *pkgSrc, fd *ast.FuncDecl, interesting func(string) bool) ([]effect, bool, []string) {
 	w := &saveWalk{p: p, interesting: interesting, visiting: map[string]bool{fd.Name.Name: true}}
-	w.walk(fd.Body.List, map[string]string{}, true)
-	return w.out, w.truncates
+	roles := map[string]string{}
+	if fd.Type.Params != nil && len(fd.Type.Params.List) > 0 && len(fd.Type.Params.List[0].Names) > 0 {
+		roles[fd.Type.Params.List[0].Names[0].Name] = "target"
+	}
+	w.walk(fd.Body.List, roles, true)
+	return w.out, w.truncates, w.otherPaths
 }
 
 func genSaveEffects(repo string) (string, error) {
@@ -292,7 +347,7 @@ func genSaveEffects(repo string) (string, error) {
 		}
 		return false
 	}
-	effs, truncates := saveEffects(p, fd, interesting)
+	effs, truncates, otherPaths := saveEffects(p, fd, interesting)
 	var b strings.Builder
 	b.WriteString("From Coq Require Import List String Bool.\nImport ListNotations.\nOpen Scope string_scope.\n\n")
 	b.WriteString("(* calls of Document.Save that can fail, in source order: (call, its error reaches the return value) *)\nDefinition save_effects : list (string * bool) := [\n")
@@ -309,5 +364,6 @@ func genSaveEffects(repo string) (string, error) {
 		return "", fmt.Errorf("Save opens the target %d times (expected exactly one os.Create / os.OpenFile)", opens)
 	}
 	fmt.Fprintf(&b, "(* the target file is opened with truncation (os.Create, or os.OpenFile with O_TRUNC) *)\nDefinition save_open_truncates : bool := %v.\n", truncates)
+	fmt.Fprintf(&b, "(* Save creates no file under a name of its own making (a name derived from the target can be the same for two\n   targets; os.CreateTemp is not counted): positions of such calls *)\nDefinition save_other_files : list string := %s.\n", coqStringList(otherPaths))
 	return b.String(), nil
 }
